@@ -17,7 +17,7 @@ MODULES = []
 EDITS = ['t.name', 't.schema', 't.alias', 't.note', 't.color', 'c.name', 'c.type', 'c.type_enum', 'c.flags', 'c.default',
          'c.note', 'e.name', 'e.schema', 'e.add_item', 'e.item_name', 'r.type', 'r.inline', 'r.name', 'r.actions',
          't.add_column', 't.add_index', 't.delete_index', 'g.name', 'g.color', 'p.name', 'p.items', 's.text',
-         'db.allow_properties', 'ix.flags', 'ix.name']
+         'db.allow_properties', 'ix.flags', 'ix.name', 't.twin_index', 't.delete_last_index', 't.delete_last_index']
 
 
 def apply_edit(rng, db, hd, kind, counter):
@@ -44,6 +44,22 @@ def apply_edit(rng, db, hd, kind, counter):
             k = rng.randint(1, min(2, len(t.columns)))
             t.add_index(Index(rng.sample(t.columns, k), name=rng.choice([None, fresh('idx')]), unique=rng.random() < 0.5,
                               pk=rng.random() < 0.2))
+        elif kind == 't.twin_index' and t.indexes:
+            # an index that differs from an existing one in a single attribute (note, comment, name, a flag)
+            src = rng.choice(t.indexes)
+            tw = Index(list(src.subjects), name=src.name, unique=src.unique, type=src.type, pk=src.pk, note=src.note.text or None, comment=src.comment)
+            what = rng.choice(['note', 'comment', 'name', 'unique'])
+            if what == 'note':
+                tw.note = Note(fresh('twin note'))
+            elif what == 'comment':
+                tw.comment = fresh('twin comment')
+            elif what == 'name':
+                tw.name = fresh('twin')
+            else:
+                tw.unique = not tw.unique
+            t.add_index(tw)
+        elif kind == 't.delete_last_index' and t.indexes:
+            t.delete_index(t.indexes[-1])       # by object: the one passed must go, not an equal-looking earlier one
         elif kind == 't.delete_index' and t.indexes:
             if rng.random() < 0.5:
                 t.delete_index(rng.randrange(len(t.indexes)))
